@@ -114,6 +114,11 @@ func c02FamilyRows() []model.Row {
 		{"a": "1", "b": "1", "c": "1", "d": "1"},
 		{},
 		{"a": "10", "b": "9", "c": "é", "d": ""},
+		// values whose byte-wise order differs from numeric, case-insensitive or locale order
+		{"a": "9", "b": "10", "c": "z", "d": "Z"},
+		{"a": "1", "b": "1", "c": "Z", "d": "é"},
+		{"a": "10", "b": "100", "c": "\xff", "d": "a"},
+		{"a": "", "b": " ", "c": "e", "d": "A"},
 	}
 }
 
